@@ -22,7 +22,7 @@ RULE = (
 )
 ASSUMPTIONS = c03.ASSUMPTIONS
 
-TAILS = ((), (), (2,), (3,), (4,), (1,), (2, 3), (3, 2), (4, 2), (2, 1), (1, 3), (2, 4))
+TAILS = ((), (), (2,), (3,), (4,), (1,), (2, 3), (3, 2), (4, 2), (2, 1), (1, 3), (2, 4), (2, 2), (3, 3))
 XAGGS = ["stddev", "quantile", "min", "max", "covariance"]
 
 
